@@ -76,16 +76,32 @@ static D_HOOKS: clock_bound_d::verif::Hooks = clock_bound_d::verif::Hooks {
     chrony_query: Some(chrony_hook),
 };
 
-// pass-through segment hooks: only the path of the segment is redirected
+/// which daemon threads stored to the segment during the current execution (the seqlock has ONE producer: the
+/// segment explorer's verdicts for C02/C03 rest on that)
+static SEG_WRITERS: Mutex<Vec<usize>> = Mutex::new(Vec::new());
+fn note_segment_write() {
+    let t = sched::current_tid();
+    if let Ok(mut w) = SEG_WRITERS.lock() {
+        if !w.contains(&t) {
+            w.push(t);
+        }
+    }
+}
+
+// pass-through segment hooks: the path of the segment is redirected, and who writes to it is noted
 fn s_load(_a: usize, _s: usize, _o: std::sync::atomic::Ordering, real: u64) -> u64 {
     real
 }
-fn s_store(_a: usize, _s: usize, _o: std::sync::atomic::Ordering, _v: u64) {}
+fn s_store(_a: usize, _s: usize, _o: std::sync::atomic::Ordering, _v: u64) {
+    note_segment_write();
+}
 fn s_rmw(_a: usize, _s: usize, _o: std::sync::atomic::Ordering, old: u64, _new: u64) -> u64 {
+    note_segment_write();
     old
 }
 fn s_fence(_o: std::sync::atomic::Ordering) {}
 fn s_data_write(dst: usize, src: *const u8, len: usize) {
+    note_segment_write();
     // SAFETY: contract of the hook
     unsafe { std::ptr::copy_nonoverlapping(src, dst as *mut u8, len) }
 }
@@ -131,6 +147,8 @@ struct Exec {
     main_unwound_by: Option<String>,
     latency_ns: Option<i64>,
     rep: sched::Report,
+    /// daemon threads that stored to the segment
+    segment_writers: Vec<usize>,
 }
 
 fn run_once(sc: &Scenario, prefix: Vec<usize>, dir: &Path, horizon_iters: i64, log: bool) -> Exec {
@@ -152,6 +170,7 @@ fn run_once_h(sc: &Scenario, prefix: Vec<usize>, dir: &Path, horizon_ns: i64, lo
     *SHM_PATH.lock().unwrap() = Some(seg);
     CHRONY_MODE.store(sc.chrony_mode, Ordering::SeqCst);
     LAST_QUERY_NS.store(0, Ordering::SeqCst);
+    SEG_WRITERS.lock().unwrap().clear();
     vclock::global_arm(R0, M0);
     sched::reset(Setup { prefix, fault: sc.fault, unfair_budget: sc.unfair_budget, reverse_keys: sc.reverse_keys, horizon_steps: 600, horizon_ns, log_events: log });
     let r = std::panic::catch_unwind(|| clock_bound_d::thread_manager::run(1000, None));
@@ -180,7 +199,8 @@ fn run_once_h(sc: &Scenario, prefix: Vec<usize>, dir: &Path, horizon_ns: i64, lo
         Err(p) => Some(if p.downcast_ref::<sched::DrainSentinel>().is_some() { "tear-down".to_string() } else { p.downcast_ref::<&str>().map(|s| s.to_string()).or_else(|| p.downcast_ref::<String>().cloned()).unwrap_or_else(|| "panic".into()) }),
     };
     let fired = if sc.startup_failure { Some(M0) } else { rep.fault_fired_at_ns };
-    Exec { trace: rep.trace.clone(), returned: r.is_ok(), main_unwound_by, latency_ns: fired.map(|f| t_return - f), rep }
+    let segment_writers = SEG_WRITERS.lock().unwrap().clone();
+    Exec { trace: rep.trace.clone(), returned: r.is_ok(), main_unwound_by, latency_ns: fired.map(|f| t_return - f), rep, segment_writers }
 }
 
 fn preemptions(trace: &[Step], upto: usize) -> usize {
@@ -324,6 +344,49 @@ fn explore(sc: &Scenario, prefix: Vec<usize>, bound: usize, dir: &Path, h: i64, 
 fn install() {
     clock_bound_d::verif::install(&D_HOOKS);
     clock_bound_shm::verif::install(&S_HOOKS);
+}
+
+/// For C02: the real daemon (both worker threads, under the controlled scheduler, default schedule) with a fault
+/// at every opportunity of either worker, with each chronyd behaviour: every store to the segment must come from
+/// one and the same thread. Returns (evidence, violations); leaves this engine's hooks installed.
+pub fn single_producer_scan(ctx: &Ctx) -> (Value, Vec<Violation>) {
+    install();
+    let base = ctx.scratch().join("single-producer");
+    let _ = std::fs::create_dir_all(&base);
+    let mut executions = 0u64;
+    let mut writers_seen: BTreeMap<String, u64> = BTreeMap::new();
+    let mut violations: Vec<Violation> = vec![];
+    for mode in [0u8, 1, 4] {
+        let probe_sc = Scenario { fault: None, startup_failure: false, chrony_mode: mode, reverse_keys: false, unfair_budget: 0 };
+        let probe = run_once_h(&probe_sc, vec![], &base, M0 + 2 * SEC + SEC / 2, false);
+        let mut scs = vec![probe_sc.clone()];
+        for t in [1usize, 2] {
+            let labels = probe.rep.opp_labels.get(t).cloned().unwrap_or_default();
+            for (k, l) in labels.iter().enumerate() {
+                for kind in [FaultKind::Panic, FaultKind::Return] {
+                    if kind == FaultKind::Return && !l.contains("return") {
+                        continue;
+                    }
+                    scs.push(Scenario { fault: Some(Fault { thread: t, at: k, kind }), startup_failure: false, chrony_mode: mode, reverse_keys: false, unfair_budget: 0 });
+                }
+            }
+        }
+        for sc in scs {
+            let e = run_once(&sc, vec![], &base, 2, false);
+            executions += 1;
+            let names: Vec<&str> = e.segment_writers.iter().map(|t| ["main", "poller", "writer"].get(*t).copied().unwrap_or("another thread")).collect();
+            *writers_seen.entry(format!("{names:?}")).or_insert(0) += 1;
+            if e.segment_writers.len() > 1 && violations.is_empty() {
+                violations.push(Violation {
+                    signature: "C02:segment-written-by-more-than-one-thread".into(),
+                    text: format!("the daemon's threads {names:?} all stored to the segment in one execution ({}): two producers can interleave inside an update, and a reader that sees the same even generation before and after its copy accepts a blend", e.rep.fault_label.clone().unwrap_or_else(|| "no fault".into())),
+                    replay: json!({"engine": "threadmc", "scenario": sc.json(), "schedule": [], "iterations": 2, "calls": []}),
+                });
+            }
+        }
+    }
+    crate::seqmc::engine::close_leaked_fds(&base.join("shm"));
+    (json!({"executions_of_the_real_daemon": executions, "threads_that_stored_to_the_segment": writers_seen}), violations)
 }
 
 /// The one worker death that can be provoked from outside, through the release binary: the segment cannot be
